@@ -62,4 +62,131 @@ theorem covers_single (r : Record) (spr : Nat) (le re : Int) (h : HitRef) (j : N
     left
     exact ⟨h0.symm, r, by rw [h0]; rfl, h1, h2, h3⟩
 
+/-! ### totality on valid input -/
+
+theorem threshold_ok (a h : List Q) (r : Record) (h0 : 0 ≤ r.channel) (h1 : r.channel < a.length) (h2 : r.channel < h.length) :
+    ∃ thr, threshold a h r = .ok thr := by
+  unfold threshold
+  have c1 : ¬ r.channel < 0 := by omega
+  have c2 : ¬ r.channel ≥ (a.length : Int) := by omega
+  simp only [c1, c2, ↓reduceIte]
+  have i1 : r.channel.toNat < a.length := by omega
+  have i2 : r.channel.toNat < h.length := by omega
+  rw [List.getElem?_eq_getElem i1, List.getElem?_eq_getElem i2]
+  exact ⟨_, rfl⟩
+
+theorem findHitsLoop_total (a h : List Q) : ∀ (rs : List Record) (ri : Nat) (mt : Int),
+    (∀ r ∈ rs, 0 ≤ r.channel ∧ r.channel < a.length ∧ r.channel < h.length ∧ r.length ≤ r.data.length) →
+    ∃ hits, findHitsLoop a h rs ri mt = .ok hits := by
+  intro rs
+  induction rs with
+  | nil => intro ri mt _; exact ⟨[], rfl⟩
+  | cons r rs ih =>
+    intro ri mt hall
+    obtain ⟨h0, h1, h2, h3⟩ := hall r (by simp)
+    obtain ⟨thr, hthr⟩ := threshold_ok a h r h0 h1 h2
+    have hl : ¬ r.length > r.data.length := by omega
+    obtain ⟨more, hmore⟩ := ih (ri + 1) (scanRec r ri thr r.samples 0 ⟨none, 0, 0, mt⟩).2
+      (fun r' hr' => hall r' (List.mem_cons_of_mem _ hr'))
+    refine ⟨(scanRec r ri thr r.samples 0 ⟨none, 0, 0, mt⟩).1 ++ more, ?_⟩
+    simp only [findHitsLoop, recHits, hthr, hl, ↓reduceIte, hmore]
+
+theorem le_maxChannel : ∀ (rs : List Record) (r : Record), r ∈ rs → r.channel ≤ maxChannel rs := by
+  intro rs
+  induction rs with
+  | nil => intro r h; simp at h
+  | cons x xs ih =>
+    intro r hr
+    cases xs with
+    | nil => simp at hr; subst hr; simp [maxChannel]
+    | cons y ys =>
+      simp only [List.mem_cons] at hr
+      rcases hr with rfl | hr
+      · simp only [maxChannel]; omega
+      · have := ih r (by simpa using hr)
+        simp only [maxChannel] at this ⊢; omega
+
+theorem findHits_total {records : List Record} {amp hon : ThrArg} {a h : List Q}
+    (hres : resolveThr records amp hon = .ok (a, h))
+    (hall : ∀ r ∈ records, 0 ≤ r.channel ∧ r.channel < a.length ∧ r.channel < h.length ∧ r.length ≤ r.data.length) :
+    ∃ hits, findHits records amp hon = .ok hits := by
+  unfold findHits
+  split
+  · exact ⟨[], rfl⟩
+  · simp only [hres]
+    exact findHitsLoop_total a h records 0 0 hall
+
+theorem findHits_total_scalar (records : List Record) (qa qh : Q)
+    (hall : ∀ r ∈ records, 0 ≤ r.channel ∧ r.length ≤ r.data.length) :
+    ∃ hits, findHits records (.scalar qa) (.scalar qh) = .ok hits := by
+  cases records with
+  | nil => exact ⟨[], rfl⟩
+  | cons r0 rs =>
+    have hmax : 0 ≤ maxChannel (r0 :: rs) := by
+      have := le_maxChannel (r0 :: rs) r0 (by simp)
+      have := (hall r0 (by simp)).1
+      omega
+    have hn : ¬ maxChannel (r0 :: rs) + 1 < 0 := by omega
+    apply findHits_total (a := List.replicate (maxChannel (r0 :: rs) + 1).toNat qa)
+      (h := List.replicate (maxChannel (r0 :: rs) + 1).toNat qh)
+    · simp [resolveThr, hn]
+    · intro r hr
+      have h1 := le_maxChannel (r0 :: rs) r hr
+      obtain ⟨h2, h3⟩ := hall r hr
+      simp only [List.length_replicate]
+      refine ⟨h2, by omega, by omega, h3⟩
+
+theorem overlapIndices_ok (a1 nA b1 nB : Int) (hA : 0 ≤ nA) (hB : 0 ≤ nB) : ∃ res, overlapIndices a1 nA b1 nB = .ok res := by
+  unfold overlapIndices
+  have : ¬ (nA < 0 ∨ nB < 0) := by omega
+  simp only [this, ↓reduceIte]
+  split
+  · exact ⟨_, rfl⟩
+  · split
+    · exact ⟨_, rfl⟩
+    · split <;> exact ⟨_, rfl⟩
+
+theorem cutLoop_total {recs : List Record} {spr : Nat} {prev next : List Int} {old : List (List Int)} {le re : Int}
+    (hle : 0 ≤ le) (hre : 0 ≤ re) : ∀ (hits : List HitRef) (new : List (List Int)),
+    (∀ h ∈ hits, h.recordI < recs.length ∧ h.left ≤ h.right) →
+    ∃ out, cutLoop recs spr prev next old le re hits new = .ok out := by
+  intro hits
+  induction hits with
+  | nil => intro new _; exact ⟨new, rfl⟩
+  | cons h hs ih =>
+    intro new hall
+    obtain ⟨h1, h2⟩ := hall h (by simp)
+    have hr : recs[h.recordI]? = some recs[h.recordI] := List.getElem?_eq_getElem h1
+    obtain ⟨⟨⟨a, b⟩, cd⟩, hov⟩ := overlapIndices_ok 0 (recs[h.recordI].length : Int) ((h.left : Int) - le)
+      ((h.right : Int) + re - ((h.left : Int) - le)) (by omega) (by omega)
+    have : ∃ new', cutHit recs spr prev next old le re new h = .ok new' := by
+      unfold cutHit
+      simp only [hr, hov]
+      exact ⟨_, rfl⟩
+    obtain ⟨new', hnew'⟩ := this
+    obtain ⟨out, hout⟩ := ih new' (fun h' hh' => hall h' (List.mem_cons_of_mem _ hh'))
+    exact ⟨out, by simp only [cutLoop, hnew', hout]⟩
+
+theorem cutOutsideHits_total (records : List Record) (hits : List HitRef) (le re : Int) (hle : 0 ≤ le) (hre : 0 ≤ re)
+    (hch : ∀ r ∈ records, 0 ≤ r.channel)
+    (hh : ∀ h ∈ hits, h.recordI < records.length ∧ h.left ≤ h.right) :
+    ∃ out, cutOutsideHits records hits le re = .ok out := by
+  unfold cutOutsideHits
+  split
+  · exact ⟨_, rfl⟩
+  · have hany : records.any (fun r => decide (r.channel < 0)) = false := by
+      rw [List.any_eq_false]
+      intro r hr
+      have := hch r hr
+      simp; omega
+    simp only [recordLinks, hany, Bool.false_eq_true, ↓reduceIte]
+    obtain ⟨out, hout⟩ := cutLoop_total (recs := records) (spr := samplesPerRecord records)
+      (prev := (linkDecisions (samplesPerRecord records) records 0 LinkSt.init).map prevOf)
+      (next := nextWrites records.length (linkDecisions (samplesPerRecord records) records 0 LinkSt.init) 0
+        (List.replicate records.length (-1)))
+      (old := records.map (·.data)) hle hre hits
+      (records.map fun r => List.replicate r.data.length (0 : Int)) hh
+    simp only [hout]
+    exact ⟨_, rfl⟩
+
 end Strax.Pulse
